@@ -147,6 +147,7 @@ def show_results(results):
 
 def parse_out(out):
     """'<results>;<end>' -> ([(idx, rawhex, ok)], end)   |   'connect:<cls>' -> (None, cls)"""
+    out = out.split("#")[0]
     if out.startswith("connect:"):
         return None, out[8:]
     body, end = out.rsplit(";", 1)
@@ -542,7 +543,8 @@ class C13(Suite):
             issued = self.issued_for(c["ops"], c["fragment"], c["multiple"])
             api, depth = self.api_depth(c)
             evs = ([data.hex()] if data else []) + ["E" if c["mode"] == "eof" else "Q"]
-            return f"crx {api} {depth} 0 {self.issued_token(issued)} {','.join(evs)}"
+            spec = f" {len(data)}:{(reg + b''.join(frames)).hex()}" if self.spec_applies(c) else ""
+            return f"crx {api} {depth} 0 {self.issued_token(issued)} {','.join(evs)}{spec}"
         obs = c.get("_obs")
         if not obs:
             return "crx unobserved"
@@ -550,7 +552,8 @@ class C13(Suite):
             issued = self.issued_for(c["ops"], c["fragment"], c["multiple"])
             api, depth = self.api_depth(c)
             evs = [b for b in obs["s2c"] if b] + [obs["term"]]
-            return f"crx {api} {depth} 0 {self.issued_token(issued)} {','.join(evs)}"
+            spec = f" {sum(len(b) for b in obs['s2c']) // 2}:{obs['server']}" if self.spec_applies(c) else ""
+            return f"crx {api} {depth} 0 {self.issued_token(issued)} {','.join(evs)}{spec}"
         # proxy / poll
         uses = "|".join(self.issued_token(self.issued_for(ops, False, c["multiple"])) for ops in obs["uses"])
         conns = "|".join(",".join([b for b in blocks if b] + [term]) for blocks, term in obs["conns"])
@@ -566,7 +569,16 @@ class C13(Suite):
 
     # ---------------------------------------------------------------------------------------- impl
     def impl(self, c):
-        return getattr(self, "impl_" + c["kind"])(c)
+        out = getattr(self, "impl_" + c["kind"])(c)
+        return out + "#spec-ok" if self.spec_applies(c) else out
+
+    @staticmethod
+    def spec_applies(c):
+        """unmutated exchanges: the hypotheses of `exchange_cut_segmented` must hold on the real streams (the driver
+        decides them and compares the theorem's right-hand side with the model run)"""
+        if c["kind"] == "relay":       # ... as far as the server answered at all (a request stream cut inside Register)
+            return c["dir"] != "drop" and bool(c.get("_obs")) and len(c["_obs"]["server"]) >= 2 * 28
+        return c["kind"] == "script" and c["mut"] == "none"
 
     def impl_script(self, c):
         reg, frames = self.script_stream(c)
@@ -622,7 +634,7 @@ class C13(Suite):
         if c["dir"] in ("none", "drop"):
             term = "Q"      # the connection stays open: whatever the client misses, it misses by timeout
         c["_obs"] = {"s2c": [b.hex() for b in rec["s2c"]], "c2s": bytes(rec["c2s"]).hex(), "term": term,
-                     "vals": vals}
+                     "vals": vals, "server": bytes(rec.get("server", b"")).hex()}
         self.relay.close_all()
         return line
 
@@ -861,6 +873,7 @@ class C13(Suite):
         return where + (":command" if off < 2 else ":length" if off < 4 else ":header" if off < 24 else ":payload")
 
     def classify(self, c, out):
+        out = out.split("#")[0]
         end = out.split(";")[-1] if ";" in out and "|" not in out else ("connect" if out.startswith("connect") else "multi")
         if c["kind"] == "script":
             return f"script:{c['api']}:{c['mode']}:{c['mut']}:{self.cut_position(c)}:{end}"
